@@ -136,13 +136,17 @@ func runOne(t *testing.T, prof *Profile, cfg *RunConfig, tape *rt.Tape, trace bo
 			res.Verdict, res.Error = "harness_error", fmt.Sprintf("panic: %v\n%s", perr, stack)
 		}
 	case execErr != nil:
-		res.Verdict, res.Error = "harness_error", execErr.Error()
+		if _, ok := execErr.(invalidRun); ok {
+			res.Verdict, res.Error = "invalid", execErr.Error()
+		} else {
+			res.Verdict, res.Error = "harness_error", execErr.Error()
+		}
 	case len(res.Violations) > 0:
 		res.Verdict = "violation"
 	default:
 		res.Verdict = "ok"
 	}
-	if res.Verdict != "ok" {
+	if res.Verdict != "ok" && res.Verdict != "invalid" {
 		res.Config = cfg
 		res.Tape = tape.Record()
 	}
@@ -262,6 +266,7 @@ func TestSim(t *testing.T) {
 			t.Fatalf("no profile for %s", prop)
 		}
 		cfg := prof.Build(seed, tier)
+		cfg.Avoid, _ = avoidFlags()
 		res := runOne(t, prof, cfg, rt.NewTape(seed), trace)
 		if os.Getenv("HAPSIM_SAMPLE") != "" && i == 0 && res.Config == nil {
 			res.Config = cfg
